@@ -1337,6 +1337,10 @@ pub struct HistoryIterator<'a> {
 	upper_bound: Option<Vec<u8>>,
 	// === Forward iteration state (streaming) ===
 	current_user_key: Vec<u8>,
+	// (seq_num, timestamp) of the version examined last for `current_user_key`:
+	// while a flush has written a memtable's versions to the version index but has
+	// not retired the memtable yet, two sources offer the same version.
+	last_version_seen: Option<(u64, u64)>,
 	first_visible_seen: bool,
 	latest_is_hard_delete: bool,
 	barrier_seen: bool, // True once we hit HARD_DELETE or REPLACE
@@ -1375,6 +1379,7 @@ impl<'a> HistoryIterator<'a> {
 			lower_bound: lower.map(|b| b.to_vec()),
 			upper_bound: upper.map(|b| b.to_vec()),
 			current_user_key: Vec::new(),
+			last_version_seen: None,
 			first_visible_seen: false,
 			latest_is_hard_delete: false,
 			barrier_seen: false,
@@ -1411,6 +1416,7 @@ impl<'a> HistoryIterator<'a> {
 
 	fn reset_forward_state(&mut self) {
 		self.current_user_key.clear();
+		self.last_version_seen = None;
 		self.first_visible_seen = false;
 		self.latest_is_hard_delete = false;
 		self.barrier_seen = false;
@@ -1563,10 +1569,18 @@ impl<'a> HistoryIterator<'a> {
 			// Detect user_key change → reset state
 			if user_key_vec != self.current_user_key {
 				self.current_user_key = user_key_vec;
+				self.last_version_seen = None;
 				self.first_visible_seen = false;
 				self.latest_is_hard_delete = false;
 				self.barrier_seen = false;
 			}
+
+			// List a version once even if two sources offer it
+			if self.last_version_seen == Some((seq_num, timestamp)) {
+				self.inner_next()?;
+				continue;
+			}
+			self.last_version_seen = Some((seq_num, timestamp));
 
 			// Skip invisible versions
 			if seq_num > self.snapshot_seq_num {
@@ -1694,7 +1708,11 @@ impl<'a> HistoryIterator<'a> {
 				None => true,
 			};
 
-			if visible && in_ts_range {
+			// (the same version offered by two sources is collected once)
+			let duplicate =
+				versions.last().is_some_and(|v| v.encoded_key.as_slice() == key_ref.encoded());
+
+			if visible && in_ts_range && !duplicate {
 				versions.push(VersionInfo {
 					is_hard_delete: key_ref.is_hard_delete_marker(),
 					is_replace: key_ref.is_replace(),
